@@ -25,6 +25,7 @@ import (
 	"net/url"
 	"os"
 	"path/filepath"
+	"runtime"
 	"runtime/debug"
 	"sort"
 	"strings"
@@ -56,6 +57,7 @@ type aConf struct {
 	WithSubj   *bool    `json:"withsubj"`
 	GraceMS    int64    `json:"grace_ms"`  // 0 = default (1h); <0 disabled
 	FreqMS     int64    `json:"freq_ms"`   // 0 => -1 (ticker off)
+	FreqUS     int64    `json:"freq_us"`   // ticker period in microseconds (overrides freq_ms)
 	UploadMax  int      `json:"uploadmax"` // 0 = default
 	PageExpMS  int64    `json:"pageexp_ms"`
 	PageLimit  int      `json:"pagelimit"`
@@ -90,6 +92,8 @@ type aStep struct {
 	Cfg     map[string]interface{} `json:"cfg"`
 	N       int                 `json:"n"`
 	Partial bool                `json:"partial"`
+	TimeoutMS int               `json:"timeout_ms"` // the request's context is cancelled after this long
+	Idx     int                 `json:"idx"`        // index under which the session of an upload POST is remembered (steps inside par / async)
 	Mid     []aStep             `json:"mid"`   // executed after Split bytes of the body have been read by the handler
 	Split   int                 `json:"split"`
 }
@@ -310,6 +314,8 @@ func viewOf(raw []byte) *aView {
 
 // ---- server under test -------------------------------------------------------------------
 type aEnv struct {
+	mu    sync.Mutex
+	async []chan aRes
 	start time.Time
 	dir  string
 	conf aConf
@@ -362,6 +368,9 @@ func (e *aEnv) mkConf() config.Config {
 		cf.Storage.GC.Frequency = -1
 	} else {
 		cf.Storage.GC.Frequency = time.Duration(c.FreqMS) * time.Millisecond
+	}
+	if c.FreqUS > 0 {
+		cf.Storage.GC.Frequency = time.Duration(c.FreqUS) * time.Microsecond
 	}
 	cf.Storage.GC.RepoUploadMax = c.UploadMax
 	return cf
@@ -427,6 +436,8 @@ func (e *aEnv) subst(s string) string {
 	if !strings.Contains(s, "$") {
 		return s
 	}
+	e.mu.Lock()
+	defer e.mu.Unlock()
 	for k, v := range e.sids {
 		s = strings.ReplaceAll(s, fmt.Sprintf("$SID%d$", k), v)
 	}
@@ -499,6 +510,11 @@ func (e *aEnv) doHTTP(st aStep, idx int) (res aRes) {
 				res.Err = stk
 			}
 		}()
+		if st.TimeoutMS > 0 {
+			ctx, cancel := context.WithTimeout(context.Background(), time.Duration(st.TimeoutMS)*time.Millisecond)
+			defer cancel()
+			req = req.WithContext(ctx)
+		}
 		res.T0 = int64(time.Since(e.start))
 		e.s.ServeHTTP(rec, req)
 		res.T1 = int64(time.Since(e.start))
@@ -524,9 +540,11 @@ func (e *aEnv) doHTTP(st aStep, idx int) (res aRes) {
 	if loc := r.Header.Get("Location"); loc != "" && idx >= 0 {
 		if lu, err := url.Parse(loc); err == nil {
 			parts := strings.Split(strings.Trim(lu.Path, "/"), "/")
+			e.mu.Lock()
 			e.sids[idx] = parts[len(parts)-1]
 			e.sts[idx] = lu.Query().Get("state")
 			e.locs[idx] = loc
+			e.mu.Unlock()
 		}
 	}
 	return res
@@ -551,6 +569,36 @@ func (e *aEnv) step(st aStep, idx int) (res aRes) {
 	switch st.Op {
 	case "http", "":
 		return e.doHTTP(st, idx)
+	case "async":
+		// start every given request in its own goroutine and go on; "join" collects the answers
+		for _, th := range st.Par {
+			for _, s2 := range th {
+				ch := make(chan aRes, 1)
+				e.async = append(e.async, ch)
+				go func(s2 aStep) {
+					ix := -1
+					if s2.Idx > 0 {
+						ix = s2.Idx
+					}
+					ch <- e.step(s2, ix)
+				}(s2)
+			}
+		}
+	case "join":
+		// wait (at most Secs) for the requests started by "async"
+		deadline := time.After(time.Duration(st.Secs * float64(time.Second)))
+		out := []aRes{}
+		for _, ch := range e.async {
+			select {
+			case r := <-ch:
+				out = append(out, r)
+			case <-deadline:
+				out = append(out, aRes{Err: "HANG: request did not complete"})
+				deadline = time.After(time.Millisecond)
+			}
+		}
+		e.async = nil
+		res.Par = [][]aRes{out}
 	case "defaults":
 		res.Cfg = verifDefaults(st.Cfg)
 	case "crashat":
@@ -727,7 +775,11 @@ func (e *aEnv) step(st aStep, idx int) (res aRes) {
 			go func(ti int) {
 				defer wg.Done()
 				for _, s2 := range st.Par[ti] {
-					res.Par[ti] = append(res.Par[ti], e.step(s2, -1))
+					ix := -1
+					if s2.Idx > 0 {
+						ix = s2.Idx
+					}
+					res.Par[ti] = append(res.Par[ti], e.step(s2, ix))
 				}
 			}(ti)
 		}
@@ -736,6 +788,36 @@ func (e *aEnv) step(st aStep, idx int) (res aRes) {
 		res.Err = "unknown op " + st.Op
 	}
 	return res
+}
+
+// blockedGoroutines returns the stacks of the goroutines that are inside olareg code (for the report of a stall)
+func blockedGoroutines() string {
+	buf := make([]byte, 1<<20)
+	n := runtime.Stack(buf, true)
+	var out []string
+	for _, g := range strings.Split(string(buf[:n]), "\n\n") {
+		if strings.Contains(g, "olareg/internal/") || strings.Contains(g, "olareg.(*Server)") {
+			lines := strings.Split(g, "\n")
+			if len(lines) > 14 {
+				lines = lines[:14]
+			}
+			out = append(out, strings.Join(lines, "\n"))
+		}
+		if len(out) >= 40 {
+			break
+		}
+	}
+	return strings.Join(out, "\n\n")
+}
+
+func stepTimeout() time.Duration {
+	if v := os.Getenv("VERIF_STEP_TIMEOUT_MS"); v != "" {
+		var n int
+		if _, err := fmt.Sscanf(v, "%d", &n); err == nil && n > 0 {
+			return time.Duration(n) * time.Millisecond
+		}
+	}
+	return 30 * time.Second
 }
 
 func runCase(c aCase, work string) (out aOut) {
@@ -770,8 +852,8 @@ func runCase(c aCase, work string) (out aOut) {
 		select {
 		case r := <-done:
 			out.Steps = append(out.Steps, r)
-		case <-time.After(30 * time.Second):
-			out.Steps = append(out.Steps, aRes{Err: "HANG: step did not return within 30s"})
+		case <-time.After(stepTimeout()):
+			out.Steps = append(out.Steps, aRes{Err: "HANG: step did not return within " + stepTimeout().String() + "\n" + blockedGoroutines()})
 			out.Fatal = fmt.Sprintf("step %d hung", i)
 			e.s = nil
 			return out
